@@ -72,6 +72,24 @@ structure KStart (s : KSys) : Prop where
   bound : ∀ b n i, s.store.disk b n = some i → i < s.ctr
   inj : ∀ b n b' n' i, s.store.disk b n = some i → s.store.disk b' n' = some i → b = b' ∧ n = n'
 
+/-! ### the LRU bucket cache of the lock-free lookup path
+
+`getOrCreateValue` reads the persisted bucket through `bucketCache`; a lookup that sits between
+`getSnapshot()` and `bucketCache.Add` while a `Flush` installs a new snapshot and purges the cache puts
+a bucket of the OLD snapshot into the cache after the purge. Every entry of an old snapshot is an entry of
+the new one, so a stale bucket can only MISS a name, never answer a wrong id: the cache is modelled by
+its effect — a lock-free persisted lookup may miss (`staleMiss`) whatever the snapshot holds. -/
+
+inductive KStepStale (f : KFun) : KSys → KSys → Prop
+  | base {s s' : KSys} : KStepG f s s' → KStepStale f s s'
+  /-- the persisted lookup of caller `i` goes through a stale cached bucket that lacks the name -/
+  | staleMiss (s : KSys) (i : Nat) (t : KThread) (q : Nat) (h : s.threads[i]? = some t) (hpc : t.pc = .afterMem q) :
+      KStepStale f s { s with threads := s.threads.set i { t with pc := .afterDisk q } }
+
+inductive KReachStale (f : KFun) (s0 : KSys) : KSys → Prop
+  | init : KReachStale f s0 s0
+  | step {s s' : KSys} : KReachStale f s0 s → KStepStale f s s' → KReachStale f s0 s'
+
 /-! ### executable schedules (used for the concrete counterexamples) -/
 
 inductive KAct
@@ -129,6 +147,70 @@ theorem kexecG_reach (f : KFun) (s0 : KSys) (acts : List KAct) : KReachG f s0 (k
   induction acts with
   | nil => intro s r; exact r
   | cons a rest ih => intro s r; exact ih _ (kactG_reach r a)
+
+/-- schedules with stale misses: `inr i` = caller i's persisted lookup misses through a stale bucket -/
+def kactStale (f : KFun) (s : KSys) : KAct ⊕ Nat → KSys
+  | .inl a => kactG f s a
+  | .inr i =>
+    match s.threads[i]? with
+    | some t =>
+      match t.pc with
+      | .afterMem q => { s with threads := s.threads.set i { t with pc := .afterDisk q } }
+      | _ => s
+    | none => s
+
+def kexecStale (f : KFun) (s : KSys) (acts : List (KAct ⊕ Nat)) : KSys := acts.foldl (kactStale f) s
+
+theorem kreachG_stale {f : KFun} {s0 s : KSys} (r : KReachG f s0 s) : KReachStale f s0 s := by
+  induction r with
+  | init => exact .init
+  | step _ st ih => exact .step ih (.base st)
+
+theorem kstepG_of_kact {f : KFun} (s : KSys) (a : KAct) : kactG f s a = s ∨ KStepG f s (kactG f s a) := by
+  cases a with
+  | call b n => exact Or.inr (.call s b n)
+  | thread i =>
+    simp only [kactG]
+    cases h : s.threads[i]? with
+    | none => exact Or.inl rfl
+    | some t => exact Or.inr (.thread s i t h)
+  | prepare => exact Or.inr (.prepare s false)
+  | prepareSwapEmpty => exact Or.inr (.prepare s true)
+  | commit =>
+    simp only [kactG]
+    by_cases h : s.committed = false ∧ s.store.needFlush = true
+    · rw [if_pos h]; exact Or.inr (.commit s h.1 h.2)
+    · rw [if_neg h]; exact Or.inl rfl
+  | finish =>
+    simp only [kactG]
+    by_cases h : s.committed = true
+    · rw [if_pos h]; exact Or.inr (.finish s h)
+    · rw [if_neg h]; exact Or.inl rfl
+
+theorem kexecStale_reach (f : KFun) (s0 : KSys) (acts : List (KAct ⊕ Nat)) : KReachStale f s0 (kexecStale f s0 acts) := by
+  unfold kexecStale
+  suffices h : ∀ s, KReachStale f s0 s → KReachStale f s0 (acts.foldl (kactStale f) s) from h s0 .init
+  induction acts with
+  | nil => intro s r; exact r
+  | cons a rest ih =>
+    intro s r
+    apply ih
+    cases a with
+    | inl a =>
+      rcases kstepG_of_kact (f := f) s a with e | st
+      · simp only [kactStale]; rw [e]; exact r
+      · show KReachStale f s0 (kactG f s a); exact .step r (.base st)
+    | inr i =>
+      simp only [kactStale]
+      cases h : s.threads[i]? with
+      | none => exact r
+      | some t =>
+        simp only []
+        cases hpc : t.pc with
+        | afterMem q => exact .step r (.staleMiss s i t q h hpc)
+        | start => exact r
+        | afterDisk q => exact r
+        | done j => exact r
 
 theorem kexec_reach (v : KvVariant) (s0 : KSys) (acts : List KAct) : KReach v s0 (kexec v s0 acts) :=
   kexecG_reach (kstep v) s0 acts
